@@ -27,6 +27,7 @@ TraceEPs == TLog[1].w.eps
 TraceExtra == {"X", "Y"}
 TraceConstruct == Builtins \cup TraceExtra
 
+Stripped(c, k) == IF Bit((c - 1) % 64, k) THEN c - (2 ^ k) ELSE c
 InitOf(r) == [o \in Objs |-> IF o <= Len(r.init) THEN r.init[o] ELSE 0]
 
 Names == {"KnownAction", "DetectAllowed", "DetectDeterministic", "AccessClass", "AccessIdentity", "AccessRefused",
@@ -39,7 +40,7 @@ ChosenK(e) ==
 
 \* clause evaluation in the post-state
 Holds(name, e) ==
-  CASE name = "KnownAction" -> e.a \in {"Register", "Detect", "Access", "Construct", "Bind", "Copy"}
+  CASE name = "KnownAction" -> e.a \in {"Register", "Detect", "Access", "Construct", "Bind", "Copy", "Strip"}
     [] name = "DetectAllowed" ->
          e.a = "Detect" => e.obs.cls \in Allowed(C(e.obj), registry, EntryPoints)
     [] name = "DetectDeterministic" ->
@@ -56,7 +57,7 @@ Holds(name, e) ==
     [] name = "BindOutcome" ->
          e.a = "Bind" => e.obs.ok = out'.ok
     [] name = "CopyFresh" ->
-         e.a = "Copy" => e.obs.new = out'.new
+         e.a \in {"Copy", "Strip"} => e.obs.new = out'.new
     [] name = "BoundState" ->
          \* the convention attached to every live dataset, as the implementation reports it after the action
          /\ Len(e.obs.bound) = Cardinality({o \in Objs : content'[o] # 0})
@@ -71,6 +72,8 @@ SeenOf(e) == {e.a}
   \cup (IF e.a = "Detect" /\ Cardinality(Allowed(C(e.obj), registry, EntryPoints)) > 1 THEN {"builtin-tie"} ELSE {})
   \cup (IF e.a = "Detect" /\ e.obs.cls \in Extra THEN {"manual-wins"} ELSE {})
   \cup (IF e.a = "Detect" /\ e.obs.cls = "None" THEN {"nothing-matches"} ELSE {})
+  \cup (IF e.a = "Strip" /\ cached[e.obj] # 0 /\ Best(AllContents[Stripped(content[e.obj], e.bit)], registry, EntryPoints) # Best(C(e.obj), registry, EntryPoints)
+        THEN {"derived-from-bound-detects-differently"} ELSE {})
   \* a built-in class registered by hand decides a tie between built-ins
   \cup (IF e.a = "Detect" /\ Cardinality(TopClasses(C(e.obj), registry, EntryPoints)) > 1
            /\ RegisteredTop(C(e.obj), registry, EntryPoints) # <<>>
@@ -96,6 +99,8 @@ Act(e) ==
     [] e.a = "Construct" -> Construct(e.cls, e.obj)
     [] e.a = "Bind"      -> Bind(e.conv)
     [] e.a = "Copy"      -> Copy(e.obj)
+    \* a copy of e.obj with distinguishing feature number e.bit removed (canonical index arithmetic)
+    [] e.a = "Strip"     -> Derive(e.obj, Stripped(content[e.obj], e.bit))
 
 LastOfRecord == l = Len(Rec.events)
 
